@@ -1,6 +1,652 @@
-(* C07 — stub: model not yet built (the property is listed under not_applicable until it is). *)
-From Coq Require Import List ZArith Bool.
+(* C07 — Logger context is exact and isolated across derived loggers.
+
+   Operational model (follows the Go text):
+     logger.go     clone / With / WithLazy / Named / WithOptions(Fields) / Sugar, check
+     sugar.go      With / WithLazy / Named / Desugar (delegate to the base Logger)
+     options.go    Fields (log.core = log.core.With(fs)), WrapCore
+     zapcore/core.go             ioCore.With = clone (encoder Clone) + addFields; Check; Write
+     zapcore/console_encoder.go  EncodeEntry / writeContext
+     zapcore/tee.go sampler.go hook.go increase_level.go   With = With of the wrapped core(s), re-wrapped
+     zapcore/lazy_with.go        lazyWithCore: initOnce, With, Check (sync.Once cell)
+     zaptest/observer/observer.go contextObserver.With / Write
+   over the shared byte-level encoder model Enc/JsonEnc.v.
+
+   Specification (independent of the above): every logger is its derivation PATH (name segments +
+   context items); an entry carries the path's fields, in order, then the call-site fields, under the
+   dot-joined non-empty segments; lines are printed from the tree-level semantics Enc/JsonAst.v.
+
+   No proofs in this file. *)
+From Coq Require Import List ZArith NArith Bool.
+From Coq.Strings Require Import Byte.
 Import ListNotations.
-From Zap Require Import Base.Wire.
-Definition model (i : sx) : sx := SL [].
-Definition spec (i o : sx) : bool := false.
+From Zap Require Import Base.Wire Enc.Bytes Enc.Decimal Enc.Fields Enc.JsonEnc Enc.JsonAst Enc.WireEnc Enc.Wf.
+
+(* ------------------------------------------------------------------------- *)
+(* Fields as the user passes them: static scripts (Enc/Fields.v), or MUTABLE
+   marshalers whose output is the value of a world variable at the moment they
+   are invoked (the harness: a *int64 shared with the test program).            *)
+Inductive sfld :=
+| SF (f : fld)
+| SMObj (k : bytes)      (* zap.Object(k, m);  m.MarshalLogObject: enc.AddInt64("w", world) *)
+| SMInl                  (* zap.Inline(m) *)
+| SMArr (k : bytes)      (* zap.Array(k, a);   a.MarshalLogArray: enc.AppendInt64(world) *)
+| SMStr (k : bytes).     (* zap.Stringer(k, s); s.String() = decimal world *)
+Definition k_w : bytes := [x77].
+Definition eval (w : Z) (s : sfld) : fld :=
+  match s with
+  | SF f => f
+  | SMObj k => FObject k (Obj [FInt k_w w] None)
+  | SMInl => FInline (Obj [FInt k_w w] None)
+  | SMArr k => FArray k (Arr [EInt w] None false)
+  | SMStr k => FStringer k (OOk (print_Z w))
+  end.
+Definition evals (w : Z) (fs : list sfld) : list fld := map (eval w) fs.
+
+(* ------------------------------------------------------------------------- *)
+(* The encoder configuration the harness uses for every io core (fixed):
+   MessageKey msg, LevelKey level (LowercaseLevelEncoder), NameKey logger (nil
+   EncodeName = FullNameEncoder), no time/caller/function/stacktrace key,
+   EpochTimeEncoder / SecondsDurationEncoder for time and duration FIELDS,
+   default line ending, ConsoleSeparator tab.                                    *)
+Definition DOT : byte := x2e.
+Definition s_msg : bytes := [x6d; x73; x67].
+Definition s_level : bytes := [x6c; x65; x76; x65; x6c].
+Definition s_logger : bytes := [x6c; x6f; x67; x67; x65; x72].
+Definition s_info : bytes := [x69; x6e; x66; x6f].
+Definition s_warn : bytes := [x77; x61; x72; x6e].
+Definition c07_cfg : cfg :=
+  {| k_message := s_msg; k_level := s_level; k_time := []; k_name := s_logger;
+     k_caller := []; k_function := []; k_stack := [];
+     skip_line_ending := false; line_ending := [];
+     e_level := SActive; e_time := SActive; e_duration := SActive; e_caller := SNil; e_name := SNil;
+     console_sep := [TAB];
+     q_layout_escaped := true; q_nil_caller_guard := true |}.
+Definition lvl_txt (hi : bool) : bytes := if hi then s_warn else s_info.
+(* the zapcore.Entry built by Logger.check: name, level, message (time is not encoded: no TimeKey) *)
+Definition mk_entry (hi : bool) (nm msg : bytes) : entry :=
+  {| lvl_text := lvl_txt hi; lvl_string := lvl_txt hi; time_zero := false;
+     time_val := {| t_nanos := 0; t_rend := RInt 0 |}; time_col := [];
+     name := nm; caller_defined := false; caller_text := []; caller_string := [];
+     func := []; message := msg; stack := [] |}.
+
+(* consoleEncoder.EncodeEntry (console_encoder.go), for any configuration: the
+   columns the slice encoder collects, fmt.Fprint of each joined by the separator,
+   the message, writeContext, the stack, the line ending. *)
+Definition senc_nil (s : senc) : bool := match s with SNil => true | _ => false end.
+Definition console_cols (c : cfg) (ent : entry) : list bytes :=
+  (if negb (is_nil (k_time c)) && negb (senc_nil (e_time c)) && negb (time_zero ent)
+   then match e_time c with SActive => [time_col ent] | _ => [] end else []) ++
+  (if negb (is_nil (k_level c)) && negb (senc_nil (e_level c))
+   then match e_level c with SActive => [lvl_text ent] | _ => [] end else []) ++
+  (if negb (is_nil (name ent)) && negb (is_nil (k_name c))
+   then match e_name c with SNoop => [] | _ => [name ent] end else []) ++
+  (if caller_defined ent then
+     (if negb (is_nil (k_caller c)) && negb (senc_nil (e_caller c))
+      then match e_caller c with SActive => [caller_text ent] | _ => [caller_string ent] end else []) ++
+     (if negb (is_nil (k_function c)) then [func ent] else [])
+   else []).
+(* addSeparatorIfNecessary *)
+Definition add_csep (c : cfg) (line : bytes) : bytes := if is_nil line then line else line ++ console_sep c.
+Definition console_line (c : cfg) (ctx : st) (ent : entry) (fs : list fld) : bytes :=
+  let line0 := join (console_sep c) (console_cols c ent) in
+  let line1 := if negb (is_nil (k_message c)) then add_csep c line0 ++ message ent else line0 in
+  (* writeContext: clone of the context encoder (spaced), call-site fields, close namespaces *)
+  let cb := buf (close_ns (enc_flds c true fs ctx)) in
+  let line2 := if is_nil cb then line1 else add_csep c line1 ++ [LBRACE] ++ cb ++ [RBRACE] in
+  let line3 := if negb (is_nil (stack ent)) && negb (is_nil (k_stack c)) then line2 ++ [NL] ++ stack ent else line2 in
+  line3 ++ resolved_le c.
+
+(* ------------------------------------------------------------------------- *)
+(* Cores.  [pcore]: what Core.With returns (no lazyWithCore inside: every With
+   implementation forwards to the wrapped core's With, and lazyWithCore.With
+   returns d.Core.With(fields)).  Leaves keep the two things With copies: the
+   sink (ioCore.out / contextObserver.logs) and the accumulated context
+   (encoder buffer + openNamespaces / context slice).                            *)
+Inductive pcore :=
+| PIo (console : bool) (sink : nat) (s : st)       (* ioCore over a json / console encoder *)
+| PObs (sink : nat) (ctx : list sfld)              (* contextObserver: Fields stored as given *)
+| PTee (l : list pcore)                            (* multiCore *)
+| PSamp (c : pcore)                                (* sampler (never dropping: first = 2^30), with a SamplerHook *)
+| PHook (c : pcore)                                (* hooked *)
+| PFilt (thr : bool) (c : pcore).                  (* levelFilterCore; thr = true: WarnLevel, false: InfoLevel *)
+
+(* the root composition as the harness builds it; [LLazy id] is a lazyWithCore
+   whose sync.Once + Core pointer is cell [id] of the store *)
+Inductive lcomp :=
+| LIo (console : bool) (sink : nat)
+| LObs (sink : nat)
+| LTee (l : list lcomp)
+| LSamp (c : lcomp) | LHook (c : lcomp) | LFilt (thr : bool) (c : lcomp)
+| LLazy (id : nat) (fs : list sfld) (c : lcomp).
+
+(* a Logger's core field *)
+Inductive kcore :=
+| LRoot                                            (* the root composition itself *)
+| LPure (p : pcore)                                (* a With result *)
+| LLazyW (id : nat) (fs : list sfld) (inner : kcore).   (* NewLazyWith(inner, fs), by Logger.WithLazy *)
+
+(* cells already initialised (Once done): id -> the replaced d.Core *)
+Definition store := list (nat * pcore).
+Fixpoint lookup {A} (id : nat) (l : list (nat * A)) : option A :=
+  match l with
+  | [] => None
+  | (k, v) :: r => if Nat.eqb k id then Some v else lookup id r
+  end.
+
+(* Core.With on With results *)
+Fixpoint pwith (w : Z) (fs : list sfld) (p : pcore) : pcore :=
+  match p with
+  | PIo co k s => PIo co k (enc_flds c07_cfg co (evals w fs) s)   (* clone: Clone copies the bytes; addFields *)
+  | PObs k ctx => PObs k (ctx ++ fs)                                     (* append(ctx[:len:len], fields...) *)
+  | PTee l => PTee (map (pwith w fs) l)
+  | PSamp c => PSamp (pwith w fs c)
+  | PHook c => PHook (pwith w fs c)
+  | PFilt thr c => PFilt thr (pwith w fs c)
+  end.
+
+(* lazyWithCore.initOnce: d.Once.Do(func() { d.Core = d.Core.With(d.fields) }); returns d.Core *)
+Definition init_once (force : store -> pcore * store) (id : nat) (sg : store) : pcore * store :=
+  match lookup id sg with
+  | Some p => (p, sg)
+  | None => let '(p, sg') := force sg in (p, (id, p) :: sg')
+  end.
+
+(* Core.With on the root composition (leaves are in their initial state) *)
+Fixpoint rwith (w : Z) (fs : list sfld) (c : lcomp) (sg : store) {struct c} : pcore * store :=
+  match c with
+  | LIo co k => (pwith w fs (PIo co k empty), sg)
+  | LObs k => (pwith w fs (PObs k []), sg)
+  | LTee l =>
+      let '(l', sg') :=
+        (fix go (l : list lcomp) (sg : store) {struct l} : list pcore * store :=
+           match l with
+           | [] => ([], sg)
+           | x :: r => let '(x', sg1) := rwith w fs x sg in
+                       let '(r', sg2) := go r sg1 in (x' :: r', sg2)
+           end) l sg in
+      (PTee l', sg')
+  | LSamp c => let '(p, sg') := rwith w fs c sg in (PSamp p, sg')
+  | LHook c => let '(p, sg') := rwith w fs c sg in (PHook p, sg')
+  | LFilt thr c => let '(p, sg') := rwith w fs c sg in (PFilt thr p, sg')
+  | LLazy id lfs inner =>
+      (* d.initOnce(); return d.Core.With(fields) *)
+      let '(cur, sg1) := init_once (rwith w lfs inner) id sg in (pwith w fs cur, sg1)
+  end.
+
+(* Core.With on a Logger's core *)
+Fixpoint kwith (root : lcomp) (w : Z) (fs : list sfld) (k : kcore) (sg : store) {struct k} : pcore * store :=
+  match k with
+  | LRoot => rwith w fs root sg
+  | LPure p => (pwith w fs p, sg)
+  | LLazyW id lfs inner =>
+      let '(cur, sg1) := init_once (kwith root w lfs inner) id sg in (pwith w fs cur, sg1)
+  end.
+
+(* LevelEnabler.Enabled.  Leaves are built at DebugLevel. *)
+Definition admits (thr hi : bool) : bool := negb thr || hi.
+Fixpoint penabled (hi : bool) (p : pcore) : bool :=
+  match p with
+  | PIo _ _ _ | PObs _ _ => true
+  | PTee l => existsb (penabled hi) l
+  | PSamp c | PHook c => penabled hi c           (* embedded Core *)
+  | PFilt thr _ => admits thr hi                  (* c.level.Enabled(lvl) *)
+  end.
+Fixpoint renabled (hi : bool) (c : lcomp) (sg : store) : bool :=
+  match c with
+  | LIo _ _ | LObs _ => true
+  | LTee l => existsb (fun x => renabled hi x sg) l
+  | LSamp c | LHook c => renabled hi c sg
+  | LFilt thr _ => admits thr hi
+  | LLazy id _ inner =>                           (* promoted from the embedded d.Core, whatever it currently is *)
+      match lookup id sg with Some p => penabled hi p | None => renabled hi inner sg end
+  end.
+Fixpoint kenabled (root : lcomp) (hi : bool) (k : kcore) (sg : store) : bool :=
+  match k with
+  | LRoot => renabled hi root sg
+  | LPure p => penabled hi p
+  | LLazyW id _ inner => match lookup id sg with Some p => penabled hi p | None => kenabled root hi inner sg end
+  end.
+
+(* what one logging call makes observable *)
+Inductive ev :=
+| ESamp                               (* the sampler's hook saw LogSampled *)
+| EHook (nm msg : bytes)              (* a hooked core's function saw Entry{LoggerName, Message} *)
+| EOut (sink : nat) (o : option bytes).   (* a line reached a sink (None: the encoder panicked) *)
+
+Section Log.
+Variable ent : entry.
+Variable hi : bool.
+Variable w : Z.                       (* the world when the call is made *)
+Variable fs : list sfld.              (* call-site fields *)
+
+(* Core.Check(ent, ce) followed by ce.Write(fields): (events during Check, events during Write in
+   the order the cores were added, ce != nil afterwards) *)
+Definition res := (list ev * list ev * bool)%type.
+Fixpoint plog (p : pcore) (nn : bool) {struct p} : res :=
+  match p with
+  | PIo false k s => ([], [EOut k (encode_entry c07_cfg false s ent (evals w fs))], true)
+  | PIo true k s => ([], [EOut k (Some (console_line c07_cfg s ent (evals w fs)))], true)
+  | PObs k ctx =>
+      (* Write records ctx ++ fields; the harness renders the recorded entry at once with a fresh JSON encoder *)
+      ([], [EOut k (encode_entry c07_cfg false empty ent (evals w (ctx ++ fs)))], true)
+  | PTee l =>
+      (fix go (l : list pcore) (nn : bool) {struct l} : res :=
+         match l with
+         | [] => ([], [], nn)
+         | x :: r => let '(c1, w1, n1) := plog x nn in
+                     let '(c2, w2, n2) := go r n1 in (c1 ++ c2, w1 ++ w2, n2)
+         end) l nn
+  | PSamp c =>
+      if penabled hi c then let '(c1, w1, n1) := plog c nn in (ESamp :: c1, w1, n1) else ([], [], nn)
+  | PHook c =>
+      (* downstream := h.Core.Check(ent, ce); if downstream != nil: downstream.AddCore(ent, h) *)
+      let '(c1, w1, n1) := plog c nn in
+      (c1, if n1 then w1 ++ [EHook (name ent) (message ent)] else w1, n1)
+  | PFilt thr c => if admits thr hi then plog c nn else ([], [], nn)
+  end.
+
+Fixpoint rlog (c : lcomp) (sg : store) (nn : bool) {struct c} : res * store :=
+  match c with
+  | LIo co k => (plog (PIo co k empty) nn, sg)
+  | LObs k => (plog (PObs k []) nn, sg)
+  | LTee l =>
+      (fix go (l : list lcomp) (sg : store) (nn : bool) {struct l} : res * store :=
+         match l with
+         | [] => (([], [], nn), sg)
+         | x :: r => let '((c1, w1, n1), sg1) := rlog x sg nn in
+                     let '((c2, w2, n2), sg2) := go r sg1 n1 in ((c1 ++ c2, w1 ++ w2, n2), sg2)
+         end) l sg nn
+  | LSamp c =>
+      if renabled hi c sg then let '((c1, w1, n1), sg1) := rlog c sg nn in ((ESamp :: c1, w1, n1), sg1)
+      else (([], [], nn), sg)
+  | LHook c =>
+      let '((c1, w1, n1), sg1) := rlog c sg nn in
+      ((c1, if n1 then w1 ++ [EHook (name ent) (message ent)] else w1, n1), sg1)
+  | LFilt thr c => if admits thr hi then rlog c sg nn else (([], [], nn), sg)
+  | LLazy id lfs inner =>
+      (* d.initOnce(); return d.Core.Check(e, ce) *)
+      let '(cur, sg1) := init_once (rwith w lfs inner) id sg in (plog cur nn, sg1)
+  end.
+
+Definition klog (root : lcomp) (k : kcore) (sg : store) : res * store :=
+  match k with
+  | LRoot => rlog root sg false
+  | LPure p => (plog p false, sg)
+  | LLazyW id lfs inner =>
+      let '(cur, sg1) := init_once (kwith root w lfs inner) id sg in (plog cur false, sg1)
+  end.
+End Log.
+
+(* ------------------------------------------------------------------------- *)
+(* Loggers and derivation programs *)
+Record logger := { lname : bytes; lcore : kcore }.
+Inductive step :=
+| SWith (fs : list sfld) | SWithLazy (fs : list sfld) | SNamed (s : bytes)
+| SFields (fs : list sfld)            (* WithOptions(Fields(fs...)) *)
+| SSugar | SDesugar.
+(* every operation carries the value the world has when it is executed *)
+Inductive op :=
+| ODerive (parent : nat) (s : step) (w : Z)                          (* node (length nodes) := parent.step *)
+| OLog (n : nat) (hi : bool) (msg : bytes) (fs : list sfld) (w : Z).  (* node n logs at Warn (hi) / Info *)
+
+Record state := { nodes : list logger; sto : store; nxt : nat }.
+
+Definition derive (root : lcomp) (lg : logger) (s : step) (w : Z) (sg : store) (nx : nat) : logger * store * nat :=
+  match s with
+  | SWith fs =>
+      if is_nil fs then (lg, sg, nx)                                  (* len(fields) == 0: return log *)
+      else let '(p, sg') := kwith root w fs (lcore lg) sg in          (* l := log.clone(); l.core = l.core.With(fields) *)
+           ({| lname := lname lg; lcore := LPure p |}, sg', nx)
+  | SWithLazy fs =>
+      if is_nil fs then (lg, sg, nx)
+      else ({| lname := lname lg; lcore := LLazyW nx fs (lcore lg) |}, sg, S nx)   (* WrapCore(NewLazyWith(core, fields)) *)
+  | SNamed s =>
+      if is_nil s then (lg, sg, nx)                                   (* s == "": return log *)
+      else ({| lname := if is_nil (lname lg) then s else lname lg ++ [DOT] ++ s; lcore := lcore lg |}, sg, nx)
+  | SFields fs =>
+      let '(p, sg') := kwith root w fs (lcore lg) sg in               (* clone; opt.apply: log.core = log.core.With(fs) *)
+      ({| lname := lname lg; lcore := LPure p |}, sg', nx)
+  | SSugar | SDesugar => (lg, sg, nx)                                 (* clone (callerSkip +-2) *)
+  end.
+
+(* Logger.check + CheckedEntry.Write *)
+Definition do_log (root : lcomp) (lg : logger) (hi : bool) (msg : bytes) (fs : list sfld) (w : Z) (sg : store)
+  : list ev * store :=
+  if kenabled root hi (lcore lg) sg then        (* lvl < DPanicLevel && !log.core.Enabled(lvl): return nil *)
+    let '((c1, w1, _), sg') := klog (mk_entry hi (lname lg) msg) hi w fs root (lcore lg) sg in
+    (c1 ++ w1, sg')
+  else ([], sg).
+
+Definition step_op (root : lcomp) (s : state) (o : op) : state * list (list ev) :=
+  match o with
+  | ODerive p st w =>
+      match nth_error (nodes s) p with
+      | Some lg => let '(lg', sg', nx') := derive root lg st w (sto s) (nxt s) in
+                   ({| nodes := nodes s ++ [lg']; sto := sg'; nxt := nx' |}, [])
+      | None => (s, [])
+      end
+  | OLog n hi msg fs w =>
+      match nth_error (nodes s) n with
+      | Some lg => let '(evs, sg') := do_log root lg hi msg fs w (sto s) in
+                   ({| nodes := nodes s; sto := sg'; nxt := nxt s |}, [evs])
+      | None => (s, [])
+      end
+  end.
+Fixpoint run (root : lcomp) (s : state) (ops : list op) : state * list (list ev) :=
+  match ops with
+  | [] => (s, [])
+  | o :: r => let '(s1, e1) := step_op root s o in
+              let '(s2, e2) := run root s1 r in (s2, e1 ++ e2)
+  end.
+
+(* the root composition as given (no ids) and its labelling: cell ids and sink ids in construction order *)
+Inductive comp :=
+| CJson | CConsole | CObs
+| CTee (l : list comp) | CSamp (c : comp) | CHook (c : comp) | CFilt (thr : bool) (c : comp)
+| CLazy (fs : list sfld) (c : comp).
+Fixpoint label (c : comp) (nc nk : nat) {struct c} : lcomp * nat * nat :=
+  match c with
+  | CJson => (LIo false nk, nc, S nk)
+  | CConsole => (LIo true nk, nc, S nk)
+  | CObs => (LObs nk, nc, S nk)
+  | CTee l =>
+      let '(l', nc', nk') :=
+        (fix go (l : list comp) (nc nk : nat) {struct l} : list lcomp * nat * nat :=
+           match l with
+           | [] => ([], nc, nk)
+           | x :: r => let '(x', nc1, nk1) := label x nc nk in
+                       let '(r', nc2, nk2) := go r nc1 nk1 in (x' :: r', nc2, nk2)
+           end) l nc nk in
+      (LTee l', nc', nk')
+  | CSamp c => let '(c', nc', nk') := label c nc nk in (LSamp c', nc', nk')
+  | CHook c => let '(c', nc', nk') := label c nc nk in (LHook c', nc', nk')
+  | CFilt thr c => let '(c', nc', nk') := label c nc nk in (LFilt thr c', nc', nk')
+  | CLazy fs c => let '(c', nc', nk') := label c nc nk in (LLazy nc' fs c', S nc', nk')
+  end.
+Definition root_of (c : comp) : lcomp := fst (fst (label c 0 0)).
+Definition ncells (c : comp) : nat := snd (fst (label c 0 0)).
+Definition nsinks (c : comp) : nat := snd (label c 0 0).
+
+(* zap.New(core): unnamed logger over the root composition *)
+Definition init (c : comp) : state := {| nodes := [{| lname := []; lcore := LRoot |}]; sto := []; nxt := ncells c |}.
+Definition run_events (c : comp) (ops : list op) : list (list ev) := snd (run (root_of c) (init c) ops).
+
+(* ========================================================================= *)
+(* Specification.  A logger IS its derivation path. *)
+Inductive pitem :=
+| PEager (w : Z) (fs : list sfld)        (* With / Fields, made when the world was w *)
+| PLazy (id : nat) (fs : list sfld).     (* WithLazy: the id-th lazily evaluated context *)
+Record snode := { segs : list bytes; items : list pitem }.
+Definition marks := list (nat * Z).      (* lazily evaluated contexts already evaluated: id -> world at that time *)
+Record sstate := { snodes : list snode; smarks : marks; snxt : nat }.
+
+Fixpoint join_dot (l : list bytes) : bytes :=
+  match l with [] => [] | [x] => x | x :: r => x ++ [DOT] ++ join_dot r end.
+Definition path_name (sg : list bytes) : bytes := join_dot (filter (fun s => negb (is_nil s)) sg).
+
+Definition item_fs (it : pitem) : list sfld := match it with PEager _ fs | PLazy _ fs => fs end.
+Definition lazy_ids (its : list pitem) : list nat :=
+  concat (map (fun it => match it with PLazy id _ => [id] | _ => [] end) its).
+Definition mark_or (m : marks) (id : nat) (d : Z) : Z := match lookup id m with Some v => v | None => d end.
+(* when the fields of a path item were evaluated, for a sink that serialises at With time (io) *)
+Definition item_world (m : marks) (it : pitem) : Z :=
+  match it with PEager w _ => w | PLazy id _ => mark_or m id 0 end.
+(* the With-contexts an io leaf has accumulated along a chain of items *)
+Definition io_ctxs (m : marks) (ch : list pitem) : list (list fld) :=
+  map (fun it => evals (item_world m it) (item_fs it)) ch.
+(* an observer keeps the Fields themselves *)
+Definition obs_ctx (ch : list pitem) : list sfld := concat (map item_fs ch).
+
+(* static facts about the root composition *)
+Fixpoint senabled (hi : bool) (c : lcomp) : bool :=
+  match c with
+  | LIo _ _ | LObs _ => true
+  | LTee l => existsb (senabled hi) l
+  | LSamp c | LHook c | LLazy _ _ c => senabled hi c
+  | LFilt thr _ => admits thr hi
+  end.
+Fixpoint all_ids (c : lcomp) : list nat :=
+  match c with
+  | LIo _ _ | LObs _ => []
+  | LTee l => concat (map all_ids l)
+  | LSamp c | LHook c | LFilt _ c => all_ids c
+  | LLazy id _ c => all_ids c ++ [id]
+  end.
+(* the lazily evaluated contexts of the root composition an entry of this level reaches *)
+Fixpoint log_ids (hi : bool) (c : lcomp) : list nat :=
+  match c with
+  | LIo _ _ | LObs _ => []
+  | LTee l => concat (map (log_ids hi) l)
+  | LSamp c => if senabled hi c then log_ids hi c else []
+  | LHook c => log_ids hi c
+  | LFilt thr c => if admits thr hi then log_ids hi c else []
+  | LLazy id _ c => all_ids c ++ [id]
+  end.
+Fixpoint mark_all (w : Z) (ids : list nat) (m : marks) : marks :=
+  match ids with
+  | [] => m
+  | id :: r => mark_all w r (match lookup id m with Some _ => m | None => (id, w) :: m end)
+  end.
+
+(* the line a sink receives, from the tree-level semantics *)
+Definition spec_members (hi : bool) (nm msg : bytes) (fields : list fld) : list member :=
+  [str_m s_level (lvl_txt hi)] ++ (if is_nil nm then [] else [str_m s_logger nm]) ++ [str_m s_msg msg] ++
+  close (ev_flds c07_cfg fields octx0).
+Definition json_line (hi : bool) (nm msg : bytes) (fields : list fld) : bytes :=
+  pv false (TObj (spec_members hi nm msg fields)) ++ [NL].
+Definition console_spec_line (hi : bool) (nm msg : bytes) (fields : list fld) : bytes :=
+  lvl_txt hi ++ [TAB] ++ (if is_nil nm then [] else nm ++ [TAB]) ++ msg ++
+  (match close (ev_flds c07_cfg fields octx0) with
+   | [] => []
+   | ms => [TAB] ++ pv true (TObj ms)
+   end) ++ [NL].
+
+Section SpecLog.
+Variable m : marks.
+Variable hi : bool.
+Variable nm msg : bytes.
+Variable w : Z.
+Variable fs : list sfld.
+(* the events of one call from a logger whose path items are [ch0], over the root composition:
+   [ch] = lazily evaluated contexts of the composition above this point (innermost first) ++ ch0 *)
+Fixpoint swalk (c : lcomp) (ch : list pitem) (nn : bool) {struct c} : res :=
+  match c with
+  | LIo false k => ([], [EOut k (Some (json_line hi nm msg (concat (io_ctxs m ch) ++ evals w fs)))], true)
+  | LIo true k => ([], [EOut k (Some (console_spec_line hi nm msg (concat (io_ctxs m ch) ++ evals w fs)))], true)
+  | LObs k => ([], [EOut k (Some (json_line hi nm msg (evals w (obs_ctx ch ++ fs))))], true)
+  | LTee l =>
+      (fix go (l : list lcomp) (nn : bool) {struct l} : res :=
+         match l with
+         | [] => ([], [], nn)
+         | x :: r => let '(c1, w1, n1) := swalk x ch nn in
+                     let '(c2, w2, n2) := go r n1 in (c1 ++ c2, w1 ++ w2, n2)
+         end) l nn
+  | LSamp c => if senabled hi c then let '(c1, w1, n1) := swalk c ch nn in (ESamp :: c1, w1, n1) else ([], [], nn)
+  | LHook c => let '(c1, w1, n1) := swalk c ch nn in (c1, if n1 then w1 ++ [EHook nm msg] else w1, n1)
+  | LFilt thr c => if admits thr hi then swalk c ch nn else ([], [], nn)
+  | LLazy id lfs c => swalk c (PLazy id lfs :: ch) nn
+  end.
+End SpecLog.
+
+Definition sderive (sn : snode) (s : step) (w : Z) (nx : nat) : snode * nat :=
+  match s with
+  | SWith fs => if is_nil fs then (sn, nx) else ({| segs := segs sn; items := items sn ++ [PEager w fs] |}, nx)
+  | SWithLazy fs => if is_nil fs then (sn, nx) else ({| segs := segs sn; items := items sn ++ [PLazy nx fs] |}, S nx)
+  | SNamed s => ({| segs := segs sn ++ [s]; items := items sn |}, nx)
+  | SFields fs => ({| segs := segs sn; items := items sn ++ [PEager w fs] |}, nx)
+  | SSugar | SDesugar => (sn, nx)
+  end.
+(* does this derivation step use the parent's core (and so evaluate what is still pending on its path)? *)
+Definition forcing (s : step) : bool :=
+  match s with SWith fs => negb (is_nil fs) | SFields _ => true | _ => false end.
+
+Definition sstep (root : lcomp) (s : sstate) (o : op) : sstate * list (list ev) :=
+  match o with
+  | ODerive p st w =>
+      match nth_error (snodes s) p with
+      | Some sn =>
+          let '(sn', nx') := sderive sn st w (snxt s) in
+          let m' := if forcing st then mark_all w (all_ids root ++ lazy_ids (items sn)) (smarks s) else smarks s in
+          ({| snodes := snodes s ++ [sn']; smarks := m'; snxt := nx' |}, [])
+      | None => (s, [])
+      end
+  | OLog n hi msg fs w =>
+      match nth_error (snodes s) n with
+      | Some sn =>
+          if senabled hi root then
+            (* first use: everything pending on the path is evaluated now; a logger without context of its own
+               uses the root composition directly, and reaches only the part of it the level admits *)
+            let ids := if is_nil (items sn) then log_ids hi root else all_ids root ++ lazy_ids (items sn) in
+            let m' := mark_all w ids (smarks s) in
+            let '(c1, w1, _) := swalk m' hi (path_name (segs sn)) msg w fs root (items sn) false in
+            ({| snodes := snodes s; smarks := m'; snxt := snxt s |}, [c1 ++ w1])
+          else (s, [[]])
+      | None => (s, [])
+      end
+  end.
+Fixpoint srun (root : lcomp) (s : sstate) (ops : list op) : sstate * list (list ev) :=
+  match ops with
+  | [] => (s, [])
+  | o :: r => let '(s1, e1) := sstep root s o in
+              let '(s2, e2) := srun root s1 r in (s2, e1 ++ e2)
+  end.
+Definition sinit (c : comp) : sstate := {| snodes := [{| segs := []; items := [] |}]; smarks := []; snxt := ncells c |}.
+Definition spec_events (c : comp) (ops : list op) : list (list ev) := snd (srun (root_of c) (sinit c) ops).
+
+(* ========================================================================= *)
+(* Wire.
+   input  = (comp (op ...))
+     comp = (0) json | (1) console | (2) observer | (3 (comp ...)) tee | (4 comp) sampler | (5 comp) hooked
+          | (6 thr comp) level filter | (7 (field ...) comp) lazy
+     op   = (0 parent step w) | (1 node hi #msg (field ...) w [sugared])
+     step = (0 (field ...) [sugared]) With | (1 (field ...) [sugared]) WithLazy | (2 #seg [sugared]) Named
+          | (3 (field ...) [sugared]) Fields | (4) Sugar | (5) Desugar
+     field = as Enc/WireEnc.v, or (100 #key) (101) (102 #key) (103 #key) mutable object / inline / array / stringer
+   observation = one per OLog op:  ((aux ...) (sink-0 lines ...) (sink-1 lines ...) ...)
+     aux = (0) sampler hook | (1 #name #msg) hook;  line = (#bytes) | () on a panic                       *)
+Definition dec_sfld (s : sx) : sfld :=
+  match sx_z (sx_nth s 0) with
+  | 100%Z => SMObj (sx_b (sx_nth s 1))
+  | 101%Z => SMInl
+  | 102%Z => SMArr (sx_b (sx_nth s 1))
+  | 103%Z => SMStr (sx_b (sx_nth s 1))
+  | _ => SF (dec_fld (sx_size s) s)
+  end.
+Definition dec_sflds (s : sx) : list sfld := map dec_sfld (sx_l s).
+Fixpoint dec_comp (fuel : nat) (s : sx) : comp :=
+  match fuel with
+  | O => CJson
+  | S f =>
+      match sx_z (sx_nth s 0) with
+      | 0%Z => CJson
+      | 1%Z => CConsole
+      | 2%Z => CObs
+      | 3%Z => CTee (map (dec_comp f) (sx_l (sx_nth s 1)))
+      | 4%Z => CSamp (dec_comp f (sx_nth s 1))
+      | 5%Z => CHook (dec_comp f (sx_nth s 1))
+      | 6%Z => CFilt (sx_bool (sx_nth s 1)) (dec_comp f (sx_nth s 2))
+      | _ => CLazy (dec_sflds (sx_nth s 1)) (dec_comp f (sx_nth s 2))
+      end
+  end.
+Definition dec_step (s : sx) : step :=
+  match sx_z (sx_nth s 0) with
+  | 0%Z => SWith (dec_sflds (sx_nth s 1))
+  | 1%Z => SWithLazy (dec_sflds (sx_nth s 1))
+  | 2%Z => SNamed (sx_b (sx_nth s 1))
+  | 3%Z => SFields (dec_sflds (sx_nth s 1))
+  | 4%Z => SSugar
+  | _ => SDesugar
+  end.
+Definition dec_op (s : sx) : op :=
+  match sx_z (sx_nth s 0) with
+  | 0%Z => ODerive (sx_n (sx_nth s 1)) (dec_step (sx_nth s 2)) (sx_z (sx_nth s 3))
+  | _ => OLog (sx_n (sx_nth s 1)) (sx_bool (sx_nth s 2)) (sx_b (sx_nth s 3)) (dec_sflds (sx_nth s 4)) (sx_z (sx_nth s 5))
+  end.
+(* The slog front end (exp/zapslog/handler.go) is a translation into the operations above: a Handler is
+   a core, a name and the pending groups; WithAttrs = core.With(namespaces of the pending groups, if one of
+   the attributes is not Skip, then the converted attributes) -- always called, like Fields --;
+   WithGroup = a copy with one more pending group; Handle (behind slog.Logger's Enabled gate) =
+   Check + Write of the record's attributes, again preceded by the pending groups.
+     slog input = (comp (sop ...) 1 #name)
+     sop = (2 parent (attr ...) w) WithAttrs | (3 parent #group w) WithGroup | (4 node hi #msg (attr ...) w) Handle
+   node k of the slog program is node k+1 of the translation (node 0: zap.New(core); node 1: its Named(name)). *)
+Inductive sop :=
+| SAttrs (p : nat) (attrs : list sfld) (w : Z)
+| SGroup (p : nat) (g : bytes) (w : Z)
+| SHandle (n : nat) (hi : bool) (msg : bytes) (attrs : list sfld) (w : Z).
+Definition is_skip (s : sfld) : bool := match s with SF FSkip => true | _ => false end.
+(* the loop shared by WithAttrs and Handle *)
+Fixpoint add_attrs (gs : list bytes) (added : bool) (attrs : list sfld) : list sfld * bool :=
+  match attrs with
+  | [] => ([], added)
+  | f :: r =>
+      let now := negb added && negb (is_nil gs) && negb (is_skip f) in
+      let '(rest, a) := add_attrs gs (added || now) r in
+      ((if now then map (fun g => SF (FNamespace g)) gs else []) ++ f :: rest, a)
+  end.
+Fixpoint scompile (gss : list (list bytes)) (l : list sop) : list op :=
+  match l with
+  | [] => []
+  | SAttrs p attrs w :: r =>
+      match nth_error gss p with
+      | Some gs => let '(fs, added) := add_attrs gs false attrs in
+                   ODerive (S p) (SFields fs) w :: scompile (gss ++ [if added then [] else gs]) r
+      | None => scompile gss r
+      end
+  | SGroup p g w :: r =>
+      match nth_error gss p with
+      | Some gs => ODerive (S p) SSugar w :: scompile (gss ++ [gs ++ [g]]) r
+      | None => scompile gss r
+      end
+  | SHandle n hi msg attrs w :: r =>
+      match nth_error gss n with
+      | Some gs => OLog (S n) hi msg (fst (add_attrs gs false attrs)) w :: scompile gss r
+      | None => scompile gss r
+      end
+  end.
+Definition dec_sop (s : sx) : sop :=
+  match sx_z (sx_nth s 0) with
+  | 2%Z => SAttrs (sx_n (sx_nth s 1)) (dec_sflds (sx_nth s 2)) (sx_z (sx_nth s 3))
+  | 3%Z => SGroup (sx_n (sx_nth s 1)) (sx_b (sx_nth s 2)) (sx_z (sx_nth s 3))
+  | _ => SHandle (sx_n (sx_nth s 1)) (sx_bool (sx_nth s 2)) (sx_b (sx_nth s 3)) (dec_sflds (sx_nth s 4)) (sx_z (sx_nth s 5))
+  end.
+Definition dec_case (i : sx) : comp * list op :=
+  (dec_comp (sx_size (sx_nth i 0)) (sx_nth i 0),
+   if sx_bool (sx_nth i 2)
+   then ODerive 0 (SNamed (sx_b (sx_nth i 3))) 0 :: scompile [[]] (map dec_sop (sx_l (sx_nth i 1)))
+   else map dec_op (sx_l (sx_nth i 1))).
+
+Definition is_out (k : nat) (e : ev) : bool := match e with EOut k' _ => Nat.eqb k' k | _ => false end.
+Definition enc_ev (e : ev) : sx :=
+  match e with
+  | ESamp => SL [SZ 0]
+  | EHook nm msg => SL [SZ 1; SB nm; SB msg]
+  | EOut _ (Some b) => SL [SB b]
+  | EOut _ None => SL []
+  end.
+Definition is_aux (e : ev) : bool := match e with EOut _ _ => false | _ => true end.
+Definition enc_log (nk : nat) (evs : list ev) : sx :=
+  SL (SL (map enc_ev (filter is_aux evs)) :: map (fun k => SL (map enc_ev (filter (is_out k) evs))) (seq 0 nk)).
+Definition enc_obs (nk : nat) (l : list (list ev)) : sx := SL (map (enc_log nk) l).
+
+Definition model (i : sx) : sx :=
+  let '(c, ops) := dec_case i in enc_obs (nsinks c) (run_events c ops).
+(* the property's oracle: the observation is what the path specification prescribes *)
+Definition spec (i o : sx) : bool :=
+  let '(c, ops) := dec_case i in sx_eqb o (enc_obs (nsinks c) (spec_events c ops)).
+
+(* well-formedness of the standard-library answers carried by the static fields of a case *)
+Definition wf_sfld (s : sfld) : bool := match s with SF f => wf_fld f | _ => true end.
+Definition wf_sflds (fs : list sfld) : bool := forallb wf_sfld fs.
+Fixpoint wf_comp (c : comp) : bool :=
+  match c with
+  | CJson | CConsole | CObs => true
+  | CTee l => forallb wf_comp l
+  | CSamp c | CHook c | CFilt _ c => wf_comp c
+  | CLazy fs c => wf_sflds fs && wf_comp c
+  end.
+Definition wf_step (s : step) : bool :=
+  match s with SWith fs | SWithLazy fs | SFields fs => wf_sflds fs | _ => true end.
+Definition wf_op (o : op) : bool :=
+  match o with ODerive _ s _ => wf_step s | OLog _ _ _ fs _ => wf_sflds fs end.
+Definition wf (i : sx) : bool := let '(c, ops) := dec_case i in wf_comp c && forallb wf_op ops.
